@@ -221,7 +221,8 @@ impl Shell {
         loop {
             if let Some(x) = self.jobs.get_mut(&i) {
                 if x.gid == gid {
-                    if let Ok(i_pid) = x.pids.binary_search(&pid) {
+                    // pids are kept in launch order, which need not be sorted
+                    if let Some(i_pid) = x.pids.iter().position(|p| *p == pid) {
                         x.pids.remove(i_pid);
                     }
                     empty_pids = x.pids.is_empty();
